@@ -102,7 +102,43 @@ def _mk_log_cond_y(kind, Rx, evaluated):
     return ob
 
 
+def _mk_rbf_log_cond_y(Rx, evaluated):
+    """RBF feature model: y -> E_{p(x)}[ln N(y; Mx x + Mk k(x) + b, Sigma)] from the kernel moments (axiom G1)"""
+    from .C16 import gen_feature_cond, kernel_moments
+
+    def ob(w):
+        xp = w.xp
+        obj, par, Kp = gen_feature_cond(w, "rbf")
+        p_x, px = SP.gen_pdf(w, "x", Rx, "Dx")
+        y = w.arr("y", Rx if Rx != 1 else "Ny", "Dy")
+        if evaluated:
+            val = obj.integrate_log_conditional_y(p_x, y=y)               # REAL
+        else:
+            fn = obj.integrate_log_conditional_y(p_x)                     # REAL: callable
+            w.check("returns-callable", callable(fn), f"got {type(fn).__name__}")
+            val = fn(y)
+        Ek, Exk, Ekk = kernel_moments(w, px, Kp, "Dx")
+        Mx, Mk, b, L = par["Mx"][0], par["Mk"][0], par["b"][0], par["L"][0]
+        mu = px["mu"]
+        Exx = px["S"] + xp.einsum("ri,rj->rij", mu, mu)
+        yb = y - b[None]                                                    # [N, Dy] (N = Rx paired, or broadcast)
+        Em = xp.einsum("ai,ri->ra", Mx, mu) + xp.einsum("ak,rk->ra", Mk, Ek)    # E[Mx x + Mk k]
+        q1 = xp.einsum("na,ab,nb->n", yb, L, yb)
+        q2 = xp.einsum("na,ab,rb->n" if Rx == 1 else "na,ab,nb->n", yb, L, Em)
+        q3 = (xp.einsum("ai,ab,bj,rij->r", Mx, L, Mx, Exx) + 2.0 * xp.einsum("ai,ab,bk,rki->r", Mx, L, Mk, Exk)
+              + xp.einsum("ak,ab,bl,rkl->r", Mk, L, Mk, Ekk))
+        spec = -0.5 * (q1 - 2.0 * q2 + q3) - 0.5 * w.size("Dy") * w.log2pi() - 0.5 * par["ld"]
+        w.equal("value", val, spec)
+    return ob
+
+
 def _register():
+    for Rx in ("N", 1):
+        for evaluated in (False, True):
+            REG.ob(f"LRBFGaussianConditional.integrate_log_conditional_y/Rx={Rx}/{'evaluated' if evaluated else 'callable'}",
+                   sorts=(["N"] if Rx != 1 else ["Ny"]) + ["Dx", "Dy", "Dk"],
+                   funcs=["approximate_conditional.LRBFGaussianConditional.integrate_log_conditional_y", "approximate_conditional.LRBFGaussianConditional.update_phi"],
+                   axioms=AX, tier="quick" if evaluated else "thorough")(_mk_rbf_log_cond_y(Rx, evaluated))
     for fkind in ("general", "rank-one", "linear", "constant", "measure", "pdf"):
         for (Rphi, Rf) in (("R", "R"), ("R", 1), (1, 1), ("R", "R2")):
             for cache in (False, True):
